@@ -129,6 +129,7 @@ def main():
     ap.add_argument('--list', action='store_true')
     ap.add_argument('--replay')
     ap.add_argument('--no-evidence', action='store_true')
+    ap.add_argument('--no-conformance', action='store_true')
     ap.add_argument('--scale', type=float, default=float(os.environ.get('VP_TIMEOUT_SCALE', '1')))
     args = ap.parse_args()
 
@@ -145,10 +146,19 @@ def main():
     tier = args.tier if args.tier in ('quick', 'thorough') else 'quick'
     seed = int(os.environ.get('VERIF_SEED', '0') or 0)
     import importlib
-    mod = importlib.import_module('harness.' + pid.lower())
-    insts = mod.instances(tier)
-    for i in insts:
-        i.setdefault('module', 'harness.' + pid.lower())
+    conf = importlib.import_module('harness.conformance')
+    if pid == 'CONF':
+        mod = conf
+        insts = conf.instances(tier)
+    else:
+        mod = importlib.import_module('harness.' + pid.lower())
+        insts = mod.instances(tier)
+        for i in insts:
+            i.setdefault('module', 'harness.' + pid.lower())
+        if not args.only and not args.no_conformance:
+            # engine-fidelity twins ride along with every check (DESIGN 2.6): a disagreement makes the run exit 3
+            mini = ('relationships_aliases.dbml', 'schemas', 'props', 'helpers/0', 'helpers/2', 'helpers/6')
+            insts += [i for i in conf.instances(tier) if tier != 'quick' or any(i['name'].endswith(m) for m in mini)]
     if args.only:
         insts = [i for i in insts if args.only in i['name']]
     if args.list:
